@@ -67,9 +67,9 @@ def _worker(args: tuple[str, bool, int, int]) -> list[dict[str, Any]]:
     ends = set(fold.const(f"{SPECIAL}:OPS_THAT_END_CONTROL_FLOW")) - {fold.const(f"{SPECIAL}:OP_JUMP")}
     jumpish = branch | {"Jump"}
     out: list[dict[str, Any]] = []
-    from .ssbs_roundtrip import _hand_made, _more_hand_made, _op_level
+    from .ssbs_roundtrip import _hand_made, _more_hand_made, _op_level, _switch_level
     progs: list[tuple[str, str, Any]] = list(_programs(thorough))
-    for hname, infos_h, ops_h, names_h in _hand_made(P) + _more_hand_made(P) + _op_level(P, thorough):
+    for hname, infos_h, ops_h, names_h in _hand_made(P) + _more_hand_made(P) + _op_level(P, thorough) + _switch_level(P, thorough):
         progs.append(("handmade", "handmade:" + hname, (infos_h, ops_h, names_h)))
     for idx, (group, fam, prog) in enumerate(progs):
         if idx % n != k:
